@@ -529,6 +529,18 @@ func attribute(prog []templang.Node, v templang.Variant, kind string) string {
 			return "CallTemplateExpression.CallFollowedOnTheSameLine"
 		}
 	}
+	if base, _ := splitKind(kind); v == 3 && base == "c08-changed" {
+		// The forced line break (known root cause, see attributeRest) comes first: an unusual spelling can be what
+		// makes an element span lines (Go code that gofmt splits, an attribute expression over several lines), and
+		// spelling it normally then removes the symptom although the line break the formatter forces is the cause.
+		// Writing the whitespace where the break is forced keeps every spelling and removes only that cause.
+		b1, _ := json.Marshal(prog)
+		p2 := mapLists(prog, separateWhereBreaksAreForced(v))
+		b2, _ := json.Marshal(p2)
+		if !bytes.Equal(b1, b2) && !failsWith(p2, v, kind) {
+			return "WriteNodes.ForcedLineBreakRendered"
+		}
+	}
 	if v == 3 {
 		// unusual spellings of single constructs: does the failure disappear when one of them is spelled normally?
 		for _, f := range oddFeatures {
